@@ -87,8 +87,13 @@ def run(eng, ctx):
     # ---------------- D3 gate
     SH.crc_gate(eng, ctx, "C08.D3")
 
-    # ---------------- D4 trailer irrelevant with validation off
-    ctx.rule("C08.D4", "the constructor argument is the message minus header and the last 3 bytes (byte-concatenation normal form), and the "
+    trailer_unused(eng, ctx, "C08.D4")
+
+
+def trailer_unused(eng, ctx, rid="C08.D4"):
+    """D4 (shared with C17): the checksum bytes reach nothing but the CRC test and the error text."""
+    fr = oracle("frames.json")
+    ctx.rule(rid, "the constructor argument is the message minus header and the last 3 bytes (byte-concatenation normal form), and the "
                        "trailer bytes flow only into the CRC test and the error text")
     f = eng.repo.func(f"{eng.reader_cls}.parse")
     se = eng.symeval(f.qualname)
@@ -101,10 +106,10 @@ def run(eng, ctx):
             arg = e.term[3][0] if e.term[3] else kw.get("payload")
             segs = cat.to_cat(arg) if arg is not None else None
             want = [("src", msg, hb, ("neg", cb))]
-            ctx.check(segs == want or SH.declared_length_slice(arg, msg, fr["rtcm3"]), "C08.D4", f.qualname, "constructor payload argument", expected=f"{f.params[0]}[{hb}:-{cb}]", found=cat.render(segs) if segs else (show(arg)[:80] if arg else "none"), **eng.loc(f, e.node))
+            ctx.check(segs == want or SH.declared_length_slice(arg, msg, fr["rtcm3"]), rid, f.qualname, "constructor payload argument", expected=f"{f.params[0]}[{hb}:-{cb}]", found=cat.render(segs) if segs else (show(arg)[:80] if arg else "none"), **eng.loc(f, e.node))
             others = [v for k, v in list(kw.items()) if k != "payload"] + list(e.term[3][1:])
             tainted = [show(v)[:50] for v in others if mentions(v, lambda s: s == msg)]
-            ctx.check(not tainted, "C08.D4", f.qualname, "no other constructor argument derives from the message bytes", expected="only the payload slice", found=", ".join(tainted) or "-", **eng.loc(f, e.node))
+            ctx.check(not tainted, rid, f.qualname, "no other constructor argument derives from the message bytes", expected="only the payload slice", found=", ".join(tainted) or "-", **eng.loc(f, e.node))
     # any other use of the message parameter: CRC call argument, or inside the raise
     for e in se.effects:
         if e.kind == "call" and mentions(e.term, lambda s: s == msg):
@@ -113,5 +118,5 @@ def run(eng, ctx):
                      or (t[2] == ("builtin", "len") and t[3] == (msg,))
                      or (t[2] == ("attr", ("builtin", "int"), "from_bytes") and t[3] and t[3][0] == ("slice", msg, ("const", -cb), ("const", None), ("const", None))))  # trailer value compared with the computed CRC
             if not okuse:
-                ctx.bad("C08.D4", f.qualname, show(t)[:80], expected="message bytes used only by the CRC test, the payload slice and the error text", found="other use of the message bytes", **eng.loc(f, e.node))
+                ctx.bad(rid, f.qualname, show(t)[:80], expected="message bytes used only by the CRC test, the payload slice and the error text", found="other use of the message bytes", **eng.loc(f, e.node))
     ctx.instance("constructor sites in parse", sum(1 for e in se.effects if e.kind == "call" and e.term[2] == ("class", eng.message_cls)), 1)
